@@ -767,6 +767,10 @@ func getIDTyp(attrs []xml.Attr) (int, int, string, string) {
 	idIdx := -1
 	typIdx := -1
 	for idx, attr := range attrs {
+		if attr.Name.Space != "" {
+			// Qualified attributes (eg. xml:id) are not stanza attributes.
+			continue
+		}
 		switch attr.Name.Local {
 		case "id":
 			id = attr.Value
@@ -1189,6 +1193,11 @@ func (se *stanzaEncoder) EncodeToken(t xml.Token) error {
 			var foundID, foundFrom bool
 			attrs := tok.Attr[:0]
 			for _, attr := range tok.Attr {
+				if attr.Name.Space != "" {
+					// Qualified attributes (eg. xml:id) are not stanza attributes.
+					attrs = append(attrs, attr)
+					continue
+				}
 				switch attr.Name.Local {
 				case "id":
 					// RFC6120 § 8.1.3
